@@ -8,6 +8,7 @@ CONSTANTS
   Free = TRUE
   ReuseKeys = FALSE
   NoReinit = FALSE
+  NoRekey = FALSE
   Hist = FALSE
 INVARIANT TypeOK
 INVARIANT Inv_AllDead
